@@ -2478,6 +2478,18 @@ def file_like_manager(
 #-------------------------------------------------------------------------------
 # trivial, non NP util
 
+def _axis_tuple_rebuild(
+        fields: tp.Tuple[str, ...],
+        values: tp.Tuple[tp.Any, ...],
+        ) -> tp.Tuple[tp.Any, ...]:
+    '''
+    Recreate, when unpickling, an instance of a NamedTuple class created by `get_tuple_constructor`.
+    '''
+    return get_tuple_constructor(fields)(values) #type: ignore
+
+def _axis_tuple_reduce(self: tp.Any) -> tp.Tuple[tp.Any, ...]:
+    return _axis_tuple_rebuild, (self._fields, tuple(self))
+
 def get_tuple_constructor(
         fields: np.ndarray,
         ) -> TupleConstructorType:
@@ -2486,10 +2498,12 @@ def get_tuple_constructor(
     '''
     # this will raise if attrs are invalid
     try:
-        return namedtuple('Axis', fields)._make #type: ignore
+        cls = namedtuple('Axis', fields) #type: ignore
     except ValueError:
-        pass
-    raise ValueError('invalid fields for namedtuple; pass `tuple` as constructor')
+        raise ValueError('invalid fields for namedtuple; pass `tuple` as constructor')
+    # the class is created on the fly and cannot be found by name: instances are pickled (as when given to a process pool) by their fields and values
+    cls.__reduce__ = _axis_tuple_reduce #type: ignore
+    return cls._make #type: ignore
 
 
 def key_normalize(key: KeyOrKeys) -> tp.List[tp.Hashable]:
